@@ -1669,7 +1669,7 @@ ASSUMPTIONS = [
     "identity is required only where the statement or the API documentation promises it (provider lookups per id, CalendarSystem per id, the tzdb provider, DateTimeZone.utc); elsewhere only answers are compared",
     "the private attribute _time_zone of the caching zone and the private format-info cache are read/replaced only to build the oracle table and to shrink the cache (knob); if they disappear those parts are skipped",
 ]
-TIERS = {"quick": {"runs": 2400, "budget": 420.0}, "thorough": {"runs": 400_000, "budget": 2400.0}}
+TIERS = {"quick": {"runs": 2400, "budget": 420.0}, "thorough": {"runs": 400_000, "budget": 3600.0}}
 
 
 def main(a, boot_info):
